@@ -59,7 +59,8 @@ def floors(tier):
     cl.update({
         "run": 36 * k, "run:NONE": 1, "assertions:SIMPLE": 20 * k, "assertions:MUTATION_ANALYSIS": 3 * k, "assertions:NONE": 2 * k,
         "coverage-function:TestSuiteBranchCoverageFunction": 36 * k, "coverage-function:TestSuiteLineCoverageFunction": 8 * k,
-        "asserted-statement": 300 * k, "statement-after": 300 * k, "suite-with-removed-test": 1,
+        "asserted-statement": 300 * k, "statement-after": 300 * k, "suite-with-removed-test": 1, "restore-path-taken": 1,
+        "directed:bare-unused": 8, "directed:dotted-only": 8, "directed:dependency": 8, "directed:unasserted": 8,
     })
     return {"evals": 1500 * k, "distinct": 36 * k, "classes": cl}
 
@@ -84,6 +85,10 @@ def directed_runs():
                  "direction": "BACKWARD"})
     runs.append({"sut": "queue_", "algorithm": "MOSA", "seed": 8, "iterations": 5, "assertion_generation": "SIMPLE", "strategy": "CASE",
                  "direction": "BACKWARD", "post_process": False})
+    # the per-test minimiser swaps covered goals (same coverage value, different covered set): the suite-level post-check of
+    # _minimize sees a different coverage and takes the restore path
+    runs.append({"sut": "queue_", "algorithm": "RANDOM", "seed": 831077, "iterations": 4, "assertion_generation": "SIMPLE", "strategy": "SUITE",
+                 "direction": "FORWARD", "coverage_metrics": ["BRANCH", "LINE"]})
     return runs
 
 
@@ -100,7 +105,7 @@ def plan(tier, seed):
             run["coverage_metrics"] = ["BRANCH", "LINE"]
         runs.append(run)
     per = 3 if quick else 8
-    return [{"name": "real", "runs": runs[i:i + per]} for i in range(0, len(runs), per)]
+    return [{"name": "directed-visitors"}] + [{"name": "real", "runs": runs[i:i + per]} for i in range(0, len(runs), per)]
 
 
 # --------------------------------------------------------------------------------------------------------------------
@@ -179,6 +184,7 @@ def evaluate(ctx, run, ev, tag):
         down = any(b < a - 1e-12 for a, b in zip(pc["original"], pc["minimized"]))
         ctx.anomaly(f"pipeline-post-check-saw-coverage-{'drop' if down else 'increase' if up else 'change'}-and-restores:{strategy_cls}")
         ctx.note("post_check_example", {"run": run, "post_check": pc})
+        ctx.cls("restore-path-taken")
     if ev.get("raised"):
         exc = ev["raised"].split(":")[0]
         where = "restore-path" if pc and not pc["same"] else "minimisation"
@@ -300,8 +306,97 @@ def run_real(ctx, run, proj, idx, env_extra=None):
     evaluate(ctx, run, ev, tag)
 
 
+def directed_visitors(ctx):
+    """The real _minimize / visitors on hand-built tests with a constant coverage function (every unprotected statement is
+    removable): one test per protection situation, every strategy x direction.  Same monitor, same evaluation as the pipelines."""
+    import libcst as cst
+
+    import pynguin.assertion.assertion as ass
+    import pynguin.configuration as config
+    import pynguin.ga.testcasechromosome as tcc
+    import pynguin.ga.testsuitechromosome as tsc
+    import pynguin.generator as gen
+    import pynguin.testcase.testcase as tc
+
+    from pynguin.instrumentation.tracer import SubjectProperties
+    from pynguin.testcase.execution import TestCaseExecutor
+    from pynguin.utils.orderedset import OrderedSet
+    from vlib.monitors import minimize as mon
+
+    events: list = []
+    mon.install(events, {})
+
+    class ConstantCoverage:
+        def __init__(self, executor):
+            self._executor = executor
+
+        def compute_coverage(self, individual):
+            return 0.5
+
+    class Algo:
+        def __init__(self, ex):
+            self.test_suite_coverage_functions = OrderedSet([ConstantCoverage(ex)])
+
+    def build(lines):
+        t = tc.TestCase()
+        for code, var, asserts in lines:
+            st = tc.Statement(node=cst.parse_module(code + "\n").body[0], bound_variable=var, bound_type=int)
+            for src, val in asserts:
+                st.assertions.append(ass.ObjectAssertion(src, val))
+            t.add_statement(st)
+            t._var_counter += 1  # noqa: SLF001
+        return t
+
+    shapes = {
+        # asserted result of the last call, not used later
+        "bare-unused": [("var_0 = 3", "var_0", [("var_0", 3)]), ("var_1 = abs(var_0)", "var_1", [("var_1", 3)])],
+        # asserted only through an attribute of the variable; its value is used later so the binding survives the unused-variable pass
+        "dotted-only": [("var_0 = complex(3, 4)", "var_0", []), ("var_1 = abs(var_0)", "var_1", [("var_0.real", 3.0)]),
+                        ("var_2 = abs(var_1)", "var_2", [])],
+        # an unasserted input of an asserted call
+        "dependency": [("var_0 = -7", "var_0", []), ("var_1 = abs(var_0)", "var_1", [("var_1", 7)]), ("var_2 = abs(var_1)", "var_2", [("var_2", 7)])],
+        # nothing asserted: everything may go
+        "unasserted": [("var_0 = 1", "var_0", []), ("var_1 = abs(var_0)", "var_1", [])],
+    }
+    cfg = config.configuration.test_case_output
+    saved = (cfg.minimization.test_case_minimization_strategy, cfg.minimization.test_case_minimization_direction, cfg.post_process)
+    ex = TestCaseExecutor(SubjectProperties())
+    try:
+        for strategy in STRATEGIES + ["NONE"]:
+            for direction in DIRECTIONS:
+                cfg.minimization.test_case_minimization_strategy = config.MinimizationStrategy[strategy]
+                cfg.minimization.test_case_minimization_direction = config.MinimizationDirection[direction]
+                cfg.post_process = True
+                for name, lines in shapes.items():
+                    suite = tsc.TestSuiteChromosome()
+                    suite.add_test_case_chromosome(tcc.TestCaseChromosome(build(lines)))
+                    suite.add_test_case_chromosome(tcc.TestCaseChromosome(build(shapes["dependency"])))
+                    algo = Algo(ex)
+                    for f in algo.test_suite_coverage_functions:
+                        suite.add_coverage_function(f)
+                    del events[:]
+                    try:
+                        gen._minimize(suite, algo)
+                    except Exception:  # noqa: BLE001 - recorded by the monitor ("raised") and judged by evaluate()
+                        pass
+                    ev = next((e for e in events if e.get("ev") == "minimize"), None)
+                    if ev is None:
+                        ctx.inconclusive_because(f"directed-visitors: no minimize event for {strategy}/{direction}/{name}")
+                        continue
+                    run = {"directed": name, "strategy": strategy, "direction": direction, "assertion_generation": "hand-built",
+                           "algorithm": "constant-coverage", "sut": "-"}
+                    evaluate(ctx, run, ev, f"directed:{name}:{strategy}:{direction}")
+                    ctx.cls(f"directed:{name}")
+    finally:
+        (cfg.minimization.test_case_minimization_strategy, cfg.minimization.test_case_minimization_direction, cfg.post_process) = saved
+
+
 def run_chunk(spec, ctx):
     from vlib import sut_corpus
+
+    if spec["name"] == "directed-visitors":
+        directed_visitors(ctx)
+        return
 
     proj = sut_corpus.copy_to(ctx.scratch / "proj")
     for i, run in enumerate(spec["runs"]):
